@@ -8,19 +8,20 @@ Require Import Nib.C04.Model Nib.C04.ProofsBase Nib.C04.ProofsUndo Nib.C04.Proof
 (** pointwise equality of reference states (the ghost [r_wr] may only grow) *)
 Definition req (r r' : rstate) : Prop :=
   (forall a, r_accs r a = r_accs r' a) /\ (forall a k, r_stor r a k = r_stor r' a k) /\
-  auxeq (r_aux r) (r_aux r') /\ (forall a, r_wr r' a = false -> r_wr r a = false).
+  auxeq (r_aux r) (r_aux r') /\ (forall a, r_wr r' a = false -> r_wr r a = false) /\
+  (forall a, r_base r a = r_base r' a).
 
 Lemma req_refl r : req r r.
 Proof. repeat split; auto. Qed.
 Lemma req_trans r1 r2 r3 : req r1 r2 -> req r2 r3 -> req r1 r3.
 Proof.
-  intros (A&B&C&D) (A'&B'&C'&D'). split; [intros; congruence|]. split; [intros; congruence|].
-  split; [eapply auxeq_trans; eauto|]. auto.
+  intros (A&B&C&D&E) (A'&B'&C'&D'&E'). split; [intros; congruence|]. split; [intros; congruence|].
+  split; [eapply auxeq_trans; eauto|]. split; [auto | intros; congruence].
 Qed.
 
 Lemma R_req s r r' : R s r -> req r r' -> R s r'.
 Proof.
-  intros HR (A&B&C&D). split; [eapply auxeq_trans; [apply (R_aux s r HR) | exact C]|].
+  intros HR (A&B&C&D&E). split; [eapply auxeq_trans; [apply (R_aux s r HR) | exact C]|].
   intros a. constructor.
   - apply (R_cnt s r HR a).
   - apply (R_dl s r HR a).
@@ -30,6 +31,7 @@ Proof.
   - apply (R_written s r HR a).
   - apply (R_good s r HR a).
   - intros Hw Hs. unfold r_get in Hs. rewrite <- A in Hs. apply (R_wr s r HR a); auto.
+  - intros Hb. rewrite <- E. apply (R_base s r HR a Hb).
 Qed.
 
 Lemma R_le s s' r : R s r -> le s s' -> R s' r.
@@ -44,6 +46,7 @@ Lemma r_set_off r a y x : x <> a ->
   r_accs (r_set r a y) x = r_accs r x /\ (forall k, r_stor (r_set r a y) x k = r_stor r x k) /\
   r_wr (r_set r a y) x = r_wr r x.
 Proof. intros H. split; [apply r_set_other; assumption|]. split; reflexivity. Qed.
+Lemma r_set_base r a y x : r_base (r_set r a y) x = r_base r x. Proof. reflexivity. Qed.
 
 (** obj_good / trivial_dirty only depend on the storage fields *)
 Lemma obj_good_scalar t cur a o o' :
@@ -68,7 +71,8 @@ Proof.
     assert (Cu : cur_store s' = cur_store s) by (subst s'; unfold cur_store, set_obj; sdb_simp; rewrite push_cache, push_txs; reflexivity).
     pose proof (R_acc s r HR a) as Ha. rewrite Hl in Ha.
     assert (Hra : r_get r a = {| rb := 0; rn := 0; rc := 0; rs := false |}) by (unfold r_get; destruct (r_accs r a); [contradiction|reflexivity]).
-    apply (R_step s s' r _ HR T).
+    assert (CF : cf s' = cf s) by (subst s'; unfold set_obj; sdb_simp; apply push_cf).
+    apply (R_step s s' r _ HR T CF).
     + subst s'. unfold set_obj; sdb_simp. rewrite push_aux. apply HR.
     + intros x. destruct (Z.eq_dec x a) as [->|Hne].
       * right. unfold updd. exists (new_obj 0 0 0), (r_get r a). rewrite T, Cu.
@@ -82,8 +86,10 @@ Proof.
         split; [intros k; simpl; rewrite (R_sto s r HR a k), Hl; unfold st, comm; simpl; apply (R_absent s r HR a Hl)|].
         split.
         -- pose proof (the_obj_good s r a HR) as G. unfold the_obj in G. rewrite Hl in G. exact G.
-        -- intros Hw Hs. simpl in Hw. destruct (R_wr s r HR a Hw Hs) as [W1 _]. split; [exact W1|].
-           intros k v Hv. discriminate.
+        -- split.
+           ++ intros Hw Hs. simpl in Hw. destruct (R_wr s r HR a Hw Hs) as [W1 _]. split; [exact W1|].
+              intros k v Hv. discriminate.
+           ++ intros Hb. simpl. apply (R_base s r HR a). rewrite <- CF. exact Hb.
       * left. unfold unch. rewrite Cu.
         split; [subst s'; rewrite lookup_set_other, lookup_push by assumption; reflexivity|].
         split; [subst s'; unfold set_obj; sdb_simp; rewrite push_dirt; simpl; unfold dinc; apply upd_other; assumption|].
@@ -100,6 +106,7 @@ Lemma sim_scalar s r a e (f : obj -> obj) (g : racct -> racct) :
 Proof.
   intros HR Hd Hf Hg Hm. destruct (Hf (the_obj s a)) as (F1&F2&F3).
   apply (mutator_R s r _ a e _ (g (r_get r a)) HR Hd).
+  - reflexivity.
   - reflexivity.
   - intros x Hx. apply r_set_off; exact Hx.
   - apply r_set_same.
@@ -154,7 +161,8 @@ Qed.
 Definition r_sstore (r : rstate) (a : addr) (k : key) (v : word) : rstate :=
   {| r_accs := r_accs (r_set r a (r_get r a));
      r_stor := fun a' k' => if Z.eqb a' a && Z.eqb k' k then v else r_stor r a' k';
-     r_aux := r_aux r; r_wr := upd (r_wr r) a true; r_calls := r_calls r |}.
+     r_aux := r_aux r; r_wr := upd (r_wr r) a true; r_calls := r_calls r;
+     r_base := r_base r; r_bl := r_bl r |}.
 
 Lemma st_cache_origin t a o k k' : st t a (cache_origin t a o k) k' = st t a o k'.
 Proof. apply ole_st, ole_cache_origin. Qed.
@@ -185,8 +193,9 @@ Proof.
     + intros x y. simpl. destruct (Z.eqb_spec x a) as [->|]; simpl; [|reflexivity].
       destruct (Z.eqb_spec y k) as [->|]; simpl; [|reflexivity].
       rewrite (the_obj_sto s r a k HR). exact Hv.
-    + intros x. simpl. unfold upd. destruct (Z.eqb x a); [discriminate|auto].
+    + split; [|reflexivity]. intros x. simpl. unfold upd. destruct (Z.eqb x a); [discriminate|auto].
   - apply (mutator_R s r (r_sstore r a k v) a (EStorage a k (st (txs s) a o k)) (w_dirty o1 k v) (r_get r a) HR eq_refl).
+    + reflexivity.
     + reflexivity.
     + intros x Hx. simpl. split; [apply r_set_other; exact Hx|]. split.
       * intros y. destruct (Z.eqb_spec x a); [contradiction|reflexivity].
@@ -263,6 +272,7 @@ Proof.
   pose proof (the_obj_good s r a HR) as G. rewrite E2 in G. destruct G as (G1&G2&G3).
   apply (mutator_R s r (r_suicide r a) a (ESuicide a (suicided o) (bal o)) (w_bal (w_sui o true) 0) {| rb := 0; rn := rn (r_get r a); rc := rc (r_get r a); rs := true |} HR eq_refl).
   - reflexivity.
+  - reflexivity.
   - intros x Hx. apply r_set_off; exact Hx.
   - apply r_set_same.
   - repeat split; simpl; auto.
@@ -309,7 +319,8 @@ Proof.
   { intros k. unfold st. destruct (dirty p k) as [v|] eqn:Hd.
     - rewrite (W2 k v Hd). unfold comm. destruct (origin p k) eqn:Ho; [apply (G2 k w Ho)|reflexivity].
     - unfold comm. destruct (origin p k) eqn:Ho; [apply (G2 k w Ho)|reflexivity]. }
-  apply (R_step s s' r r HR T).
+  assert (CF : cf s' = cf s) by (subst s'; unfold set_obj; sdb_simp; rewrite ?push_cf; apply cached_cf).
+  apply (R_step s s' r r HR T CF).
   - subst s'. unfold set_obj; sdb_simp. rewrite ?push_aux, cached_aux. apply HR.
   - intros y. destruct (Z.eq_dec y a) as [->|Hne].
     + right. unfold updd. exists o', x. rewrite T, Cu.
@@ -326,7 +337,8 @@ Proof.
       split.
       { subst o'. split; [|split]; simpl; try discriminate; [|intros k Hk; contradiction].
         intros _ k _. unfold comm. simpl. symmetry. apply W1. }
-      intros _ _. split; [exact W1|]. intros k v Hv. discriminate.
+      split; [intros _ _; split; [exact W1|]; intros k v Hv; discriminate|].
+      intros Hb. apply (R_base s r HR a). rewrite <- CF. exact Hb.
     + left. unfold unch. rewrite Cu.
       split; [subst s'; rewrite !lookup_set_other by assumption; rewrite lookup_push; apply lookup_cached|].
       split; [subst s'; unfold set_obj; sdb_simp; rewrite ?push_dirt; simpl; apply (f_equal (fun f => f y) (cached_dirt s a))|].
@@ -355,10 +367,12 @@ Qed.
 Lemma sim_aux s r e x' r' :
   R s r -> dirtied e = None -> auxeq x' (r_aux r') ->
   (forall a, r_accs r' a = r_accs r a) -> (forall a k, r_stor r' a k = r_stor r a k) -> (forall a, r_wr r' a = r_wr r a) ->
+  (forall a, r_base r' a = r_base r a) ->
   R (with_aux (push s e) x') r'.
 Proof.
-  intros HR Hd Hx A B C. apply (R_step s _ r r' HR).
+  intros HR Hd Hx A B C Bs. apply (R_step s _ r r' HR).
   - sdb_simp. apply push_txs.
+  - sdb_simp. apply push_cf.
   - exact Hx.
   - intros y. left. unfold unch. rewrite lookup_with_aux, lookup_push. sdb_simp. rewrite push_dirt, Hd.
     unfold cur_store. sdb_simp. rewrite push_cache, push_txs. repeat split; auto.
@@ -407,6 +421,7 @@ Lemma sim_snapshot s r : R s r -> R (precompile_snapshot s) r.
 Proof.
   intros HR. apply (R_step s _ r r HR).
   - apply snapshot_txs.
+  - apply snapshot_cf.
   - rewrite snapshot_aux. apply (R_aux s r HR).
   - intros x. left. unfold unch. rewrite snapshot_lookup, snapshot_dirt, snapshot_cur. repeat split; auto.
 Qed.
@@ -433,45 +448,64 @@ Proof.
   unfold obj_written in Hw. rewrite Hs in Hw. destruct Hw as [Hw _]. unfold bank_bal. rewrite Hw. reflexivity.
 Qed.
 
-Lemma sim_flush s r : R s r -> repaired (cf s) = true -> R (commit_cache s) r /\ all_clean (commit_cache s).
+Lemma sim_flush s r : R s r -> repaired (cf s) = true -> R (commit_cache s) (r_flush r) /\ all_clean (commit_cache s).
 Proof.
   intros HR Hr. split.
   - set (s' := commit_cache s).
     assert (Hcur : cur_store s' = flush_store false s (cur_store s)).
     { unfold s', commit_cache, cur_store. sdb_simp. rewrite Hr. reflexivity. }
-    apply (R_step s s' r r HR eq_refl (R_aux s r HR)).
-    intros x. destruct (dirt s x) as [c|] eqn:Hd.
-    + right. unfold updd.
-      assert (Hn : lookup s x <> None) by (apply (R_dl s r HR x); congruence).
-      destruct (lookup s x) as [o|] eqn:Hl; [|contradiction].
-      pose proof (R_acc s r HR x) as Ha. rewrite Hl in Ha. destruct (r_accs r x) as [y|] eqn:Hy; [|contradiction].
+    split; [apply (R_aux s r HR)|].
+    intros x. pose proof (R_acc s r HR x) as Ha.
+    destruct (lookup s x) as [o|] eqn:Hl.
+    + (* the account is now written, whether it was dirty or clean *)
+      destruct (r_accs r x) as [y|] eqn:Hy; [|contradiction].
       destruct (R_good s r HR x o Hl) as (G1&G2&G3).
-      exists o, y. change (txs s') with (txs s). rewrite Hcur.
-      assert (Hd' : dirt s' x = Some 0) by (unfold s', commit_cache, flush_dirt; sdb_simp; rewrite Hd; reflexivity).
+      apply Rat_gen. unfold updd. exists o, y. change (txs s') with (txs s). change (cf s') with (cf s). rewrite Hcur.
+      assert (Hd' : clean (dirt s' x)).
+      { unfold s', commit_cache, flush_dirt; sdb_simp. destruct (dirt s x); [right|left]; reflexivity. }
       assert (Hst : forall k, suicided o = false -> stor (flush_store false s (cur_store s)) x k = st (txs s) x o k).
-      { intros k Hs. unfold flush_store. simpl. rewrite Hd, Hl, Hs. unfold st.
-        destruct (dirty o k) eqn:Hk; [reflexivity|]. symmetry. apply G1; assumption. }
-      split; [unfold s'; rewrite flush_lookup by assumption; exact Hl|]. split; [first [exact Hy|reflexivity]|]. split; [exact Ha|].
-      split; [intros c0 Hc0; rewrite Hd' in Hc0; inversion Hc0; lia|].
+      { intros k Hs. unfold flush_store. simpl. rewrite Hl, Hs. destruct (dirt s x) eqn:Hd.
+        - unfold st. destruct (dirty o k) eqn:Hk; [reflexivity|]. symmetry. apply G1; assumption.
+        - pose proof (R_written s r HR x o Hl (or_introl Hd)) as Hw. unfold obj_written in Hw. rewrite Hs in Hw.
+          symmetry. apply Hw. }
+      assert (Hacc : accs (flush_store false s (cur_store s)) x = if suicided o then None else Some (acc_of_obj o)).
+      { unfold flush_store. simpl. rewrite Hl. destruct (dirt s x) eqn:Hd; [destruct (suicided o); reflexivity|].
+        pose proof (R_written s r HR x o Hl (or_introl Hd)) as Hw. unfold obj_written in Hw.
+        destruct (suicided o); apply Hw. }
+      assert (Hst0 : suicided o = true -> forall k, stor (flush_store false s (cur_store s)) x k = 0).
+      { intros Hs k. unfold flush_store. simpl. rewrite Hl, Hs. destruct (dirt s x) eqn:Hd; [reflexivity|].
+        pose proof (R_written s r HR x o Hl (or_introl Hd)) as Hw. unfold obj_written in Hw. rewrite Hs in Hw. apply Hw. }
+      split; [unfold s'; rewrite flush_lookup by assumption; exact Hl|]. split; [exact Hy|]. split; [exact Ha|].
+      split; [intros c0 Hc0; destruct Hd' as [E|E]; rewrite E in Hc0; inversion Hc0; lia|].
       split.
-      { intros _. unfold obj_written. destruct (suicided o) eqn:Hs.
-        - unfold flush_store. simpl. rewrite Hd, Hl, Hs. auto.
-        - split; [unfold flush_store; simpl; rewrite Hd, Hl, Hs; reflexivity|].
-          intros k. symmetry. apply Hst; first [exact Hs|reflexivity]. }
-      split; [intros k; rewrite (R_sto s r HR x k), Hl; reflexivity|].
+      { intros _. unfold obj_written. rewrite Hacc. destruct (suicided o) eqn:Hs.
+        - split; [reflexivity | apply Hst0; reflexivity].
+        - split; [reflexivity|]. intros k. symmetry. apply Hst; reflexivity. }
+      split; [intros k; simpl; rewrite (R_sto s r HR x k), Hl; reflexivity|].
       split.
       { split; [|split; assumption]. intros Hs k Hk. rewrite (Hst k Hs). unfold st. rewrite Hk. reflexivity. }
-      intros Hw Hs. assert (Hs' : rs (r_get r x) = false) by (unfold r_get; rewrite Hy; exact Hs).
-      destruct (R_wr s r HR x Hw Hs') as [W1 W2]. specialize (W2 o Hl). split; [|exact W2].
-      intros k. destruct Ha as (_&_&_&Hsu). rewrite (Hst k ltac:(congruence)). unfold st.
-      destruct (dirty o k) as [v|] eqn:Hk.
-      * rewrite (W2 k v Hk). unfold comm. destruct (origin o k) eqn:Ho; [apply (G2 k w Ho)|reflexivity].
-      * unfold comm. destruct (origin o k) eqn:Ho; [apply (G2 k w Ho)|reflexivity].
-    + left. unfold unch. rewrite Hcur.
-      split; [unfold s'; apply flush_lookup; exact Hr|].
-      split; [unfold s', commit_cache, flush_dirt; sdb_simp; rewrite Hd; reflexivity|].
-      split; [unfold flush_store; simpl; rewrite Hd; reflexivity|].
-      split; [intros k; unfold flush_store; simpl; rewrite Hd; reflexivity|]. repeat split; auto.
+      split.
+      { intros Hw Hs. simpl in Hw. assert (Hs' : rs (r_get r x) = false) by (unfold r_get; rewrite Hy; exact Hs).
+        destruct (R_wr s r HR x Hw Hs') as [W1 W2]. specialize (W2 o Hl). split; [|exact W2].
+        intros k. destruct Ha as (_&_&_&Hsu). rewrite (Hst k ltac:(congruence)). unfold st.
+        destruct (dirty o k) as [v|] eqn:Hk.
+        * rewrite (W2 k v Hk). unfold comm. destruct (origin o k) eqn:Ho; [apply (G2 k w Ho)|reflexivity].
+        * unfold comm. destruct (origin o k) eqn:Ho; [apply (G2 k w Ho)|reflexivity]. }
+      intros _. simpl. rewrite Hy. unfold bank_bal. rewrite Hacc. destruct Ha as (Hb&_&_&Hsu). rewrite <- Hsu, <- Hb.
+      destruct (suicided o); reflexivity.
+    + destruct (r_accs r x) as [y|] eqn:Hy; [contradiction|].
+      assert (Hdn : dirt s x = None).
+      { destruct (dirt s x) eqn:Hd; [|reflexivity]. exfalso. apply (R_dl s r HR x); congruence. }
+      destruct HR as [_ HR']. apply (Rat_unchB s s' r (r_flush r) x (HR' x) eq_refl).
+      * unfold s'. apply flush_lookup; exact Hr.
+      * unfold s', commit_cache, flush_dirt; sdb_simp. rewrite Hdn. reflexivity.
+      * rewrite Hcur. unfold flush_store; simpl. rewrite Hdn. reflexivity.
+      * intros k. rewrite Hcur. unfold flush_store; simpl. rewrite Hdn. reflexivity.
+      * reflexivity.
+      * reflexivity.
+      * reflexivity.
+      * intros _. simpl. rewrite Hy. rewrite Hcur. unfold bank_bal, flush_store. simpl. rewrite Hdn.
+        rewrite (lookup_none_accs s x Hl). reflexivity.
   - intros a. unfold commit_cache, flush_dirt. sdb_simp. destruct (dirt s a); [right|left]; reflexivity.
 Qed.
 
@@ -486,6 +520,8 @@ Lemma set_balance_cur s a b : cur_store (set_balance s a b) = cur_store s.
 Proof. unfold set_balance. rewrite cur_store_set_obj, push_cur. apply get_or_new_cur. Qed.
 Lemma set_balance_txs s a b : txs (set_balance s a b) = txs s.
 Proof. unfold set_balance, set_obj; sdb_simp. rewrite push_txs. apply get_or_new_txs. Qed.
+Lemma set_balance_cf s a b : cf (set_balance s a b) = cf s.
+Proof. unfold set_balance, set_obj; sdb_simp. rewrite push_cf. apply get_or_new_cf. Qed.
 Lemma set_balance_aux s a b : aux (set_balance s a b) = aux s.
 Proof. unfold set_balance, set_obj; sdb_simp. rewrite push_aux. apply get_or_new_aux. Qed.
 Lemma set_balance_lookup_other s a b x : x <> a -> lookup (set_balance s a b) x = lookup s x.
@@ -516,33 +552,34 @@ Definition presync (s : sdb) (r' : rstate) (a : addr) : Prop :=
     (forall k, r_stor r' a k = st (txs s) a o k) /\
     obj_good (txs s) (cur_store s) a o /\
     (r_wr r' a = false -> rs y' = false ->
-       (forall k, stor (cur_store s) a k = stor (txs s) a k) /\ trivial_dirty (txs s) a o).
+       (forall k, stor (cur_store s) a k = stor (txs s) a k) /\ trivial_dirty (txs s) a o) /\
+    (In a (blocked (cf s)) -> bank_bal (cur_store s) a = r_base r' a).
 
 Lemma sync_gen s r' a : presync s r' a -> Rat (sync s a) r' a.
 Proof.
-  intros (o&y'&L&A&B&N&C&S&Hc&St&G&W). apply Rat_gen. unfold updd, sync.
+  intros (o&y'&L&A&B&N&C&S&Hc&St&G&W&Bl). apply Rat_gen. unfold updd, sync.
   exists (w_bal o (to_wei (bank_bal (cur_store s) a))), y'.
-  rewrite set_balance_txs, set_balance_cur, set_balance_lookup_same. unfold the_obj. rewrite L.
+  rewrite set_balance_txs, set_balance_cur, set_balance_cf, set_balance_lookup_same. unfold the_obj. rewrite L.
   destruct (set_balance_dirt_same s a (to_wei (bank_bal (cur_store s) a)) Hc) as (c&Hd&Hp).
   split; [reflexivity|]. split; [exact A|]. split; [repeat split; simpl; congruence|].
   split; [intros c0 Hc0; rewrite Hd in Hc0; inversion Hc0; lia|].
   split; [intros [E|E]; rewrite Hd in E; inversion E; lia|].
-  split; [exact St|]. split; [exact G | exact W].
+  split; [exact St|]. split; [exact G|]. split; [exact W | exact Bl].
 Qed.
 
 Lemma sync_unch s r' a x : x <> a -> Rat s r' x -> Rat (sync s a) r' x.
 Proof.
-  intros Hx HA. apply (Rat_unch s _ r' r' x HA); [apply set_balance_txs|].
+  intros Hx HA. apply (Rat_unch s _ r' r' x HA); [apply set_balance_txs | apply set_balance_cf |].
   unfold unch, sync. rewrite set_balance_cur, set_balance_lookup_other, set_balance_dirt_other by assumption.
   repeat split; auto.
 Qed.
 
 Lemma presync_unch s r' a x : x <> a -> presync s r' x -> presync (sync s a) r' x.
 Proof.
-  intros Hx (o&y'&L&A&B&N&C&S&Hc&St&G&W). exists o, y'. unfold sync.
-  rewrite set_balance_txs, set_balance_cur, set_balance_lookup_other, set_balance_dirt_other by assumption.
+  intros Hx (o&y'&L&A&B&N&C&S&Hc&St&G&W&Bl). exists o, y'. unfold sync.
+  rewrite set_balance_txs, set_balance_cur, set_balance_cf, set_balance_lookup_other, set_balance_dirt_other by assumption.
   split; [exact L|]. split; [exact A|]. split; [exact B|]. split; [exact N|]. split; [exact C|]. split; [exact S|].
-  split; [exact Hc|]. split; [exact St|]. split; [exact G | exact W].
+  split; [exact Hc|]. split; [exact St|]. split; [exact G|]. split; [exact W | exact Bl].
 Qed.
 
 Lemma presync_of_Rat s r' a o y' :
@@ -553,7 +590,7 @@ Proof.
   split; [exact L|]. split; [exact A|]. split; [exact B|]. split; [exact M2|]. split; [exact M3|]. split; [exact M4|].
   split; [apply (A_cnt s r' a HA)|].
   split; [intros k; rewrite (A_sto s r' a HA k), L; reflexivity|].
-  split; [apply (A_good s r' a HA o L)|].
+  split; [apply (A_good s r' a HA o L)|]. split; [|apply (A_base s r' a HA)].
   intros Hw Hs. assert (Hs' : rs (r_get r' a) = false) by (unfold r_get; rewrite A; exact Hs).
   destruct (A_wr s r' a HA Hw Hs') as [W1 W2]. split; [exact W1 | apply W2; exact L].
 Qed.
@@ -592,6 +629,7 @@ Qed.
 (** the state after the bank moved the coins, before the syncs: what a sync of [x] will find *)
 Lemma presync_moved s r r' c f t amt x y' :
   R s r -> views s -> cache s = Some c -> x = f \/ x = t ->
+  ~ In x (blocked (cf s)) ->
   rs (r_get r x) = false ->
   r_accs r' x = Some y' ->
   rb y' = to_wei (bank_bal (bank_move c f t amt) x) -> rn y' = rn (r_get r x) -> rc y' = rc (r_get r x) ->
@@ -599,7 +637,7 @@ Lemma presync_moved s r r' c f t amt x y' :
   (forall k, r_stor r' x k = r_stor r x k) -> r_wr r' x = r_wr r x ->
   presync (with_cache s (Some (bank_move c f t amt))) r' x.
 Proof.
-  intros HR HV Hc Hx Hsx A B N C S St Wr.
+  intros HR HV Hc Hx Hnb Hsx A B N C S St Wr.
   set (c1 := bank_move c f t amt). set (sA := with_cache s (Some c1)).
   assert (Hcur : cur_store s = c) by (unfold cur_store; rewrite Hc; reflexivity).
   pose proof (R_acc s r HR x) as Ha.
@@ -645,7 +683,7 @@ Proof.
   split; [exact L|]. split; [exact A|]. split; [exact B|]. split; [congruence|]. split; [congruence|]. split; [congruence|].
   split; [apply (R_cnt s r HR x)|].
   split; [intros k; rewrite St; apply St'|].
-  split; [exact G'|].
+  split; [exact G'|]. split; [|intros Hb; contradiction].
   intros Hw _. rewrite Wr in Hw. apply W'; exact Hw.
 Qed.
 
@@ -678,13 +716,22 @@ Proof.
   intros Hc H. unfold lookup, cur_store. sdb_simp. rewrite Hc, H. reflexivity.
 Qed.
 
+Lemma is_bl_false r a : is_bl r a = false -> ~ In a (r_bl r).
+Proof.
+  unfold is_bl. intros H Hin. assert (existsb (Z.eqb a) (r_bl r) = true); [|congruence].
+  apply existsb_exists. exists a. split; [exact Hin | apply Z.eqb_refl].
+Qed.
+
 Lemma sim_bank_send s r f t amt :
-  R s r -> views s -> cache s <> None -> wf_send r (f, t, amt) = true ->
+  R s r -> views s -> cache s <> None -> blocked (cf s) = r_bl r -> wf_send r (f, t, amt) = true ->
   R (bank_send s f t amt) (r_send r f t amt) /\ views (bank_send s f t amt).
 Proof.
-  intros HR HV Hcn Hwf. destruct (cache s) as [c|] eqn:Hc; [|contradiction]. clear Hcn.
-  unfold wf_send in Hwf. simpl in Hwf. apply andb_true_iff in Hwf as [Hsf Hst].
+  intros HR HV Hcn Hbl Hwf. destruct (cache s) as [c|] eqn:Hc; [|contradiction]. clear Hcn.
+  unfold wf_send in Hwf. simpl in Hwf. apply andb_true_iff in Hwf as [Hwf Hbt].
+  apply andb_true_iff in Hwf as [Hwf Hbf]. apply andb_true_iff in Hwf as [Hsf Hst].
   apply negb_true_iff in Hsf. apply negb_true_iff in Hst.
+  apply negb_true_iff, is_bl_false in Hbf. apply negb_true_iff, is_bl_false in Hbt.
+  rewrite <- Hbl in Hbf, Hbt.
   pose proof (bank_view s r c f HR HV Hc Hsf) as Bf. pose proof (bank_view s r c t HR HV Hc Hst) as Bt.
   unfold r_send. rewrite <- Bf.
   destruct ((amt <=? 0) || (bank_bal c f <? amt)) eqn:Hg.
@@ -706,7 +753,7 @@ Proof.
       rewrite <- Bt. repeat split; auto; simpl; f_equal; lia. }
   destruct Hyt as (Yt1&Yt2&Yt3&Yt4).
   assert (PSt : t <> f -> presync sA r' t).
-  { intros Hne. apply (presync_moved s r r' c f t amt t yt HR HV Hc (or_intror eq_refl) Hst Ht' Yt1 Yt2 Yt3 Yt4); reflexivity. }
+  { intros Hne. apply (presync_moved s r r' c f t amt t yt HR HV Hc (or_intror eq_refl) Hbt Hst Ht' Yt1 Yt2 Yt3 Yt4); reflexivity. }
   assert (Hf' : exists y, r_accs r' f = Some y /\ rb y = to_wei (bank_bal c1 f) /\ rn y = rn (r_get r f) /\
                           rc y = rc (r_get r f) /\ rs y = false).
   { destruct (Z.eq_dec f t) as [E|Hne].
@@ -716,7 +763,7 @@ Proof.
       repeat split; auto. f_equal. lia. }
   destruct Hf' as (y&Hy&Y1&Y2&Y3&Y4).
   assert (PSf : presync sA r' f).
-  { apply (presync_moved s r r' c f t amt f y HR HV Hc (or_introl eq_refl) Hsf Hy Y1 Y2 Y3 Y4); reflexivity. }
+  { apply (presync_moved s r r' c f t amt f y HR HV Hc (or_introl eq_refl) Hbf Hsf Hy Y1 Y2 Y3 Y4); reflexivity. }
   assert (RAf : Rat (sync sA f) r' f) by (apply sync_gen; exact PSf).
   assert (PSt' : presync (sync sA f) r' t).
   { destruct (Z.eq_dec t f) as [E|Hne].
@@ -731,11 +778,11 @@ Proof.
       apply sync_unch; [exact Hxt|].
       destruct (Z.eq_dec x f) as [->|Hxf]; [exact RAf|].
       apply sync_unch; [exact Hxf|].
-      destruct HR as [_ HR']. apply (Rat_unch s sA r r' x (HR' x) eq_refl).
+      destruct HR as [_ HR']. apply (Rat_unch s sA r r' x (HR' x) eq_refl eq_refl).
       unfold unch. change (cur_store sA) with c1. rewrite Hcur, (Hoth x Hxf Hxt).
       split; [apply (lookup_moved_other s c c1 x Hc (Hoth x Hxf Hxt))|].
       split; [reflexivity|]. split; [reflexivity|]. split; [reflexivity|].
-      unfold r', r1. split; [rewrite !r_set_other by assumption; reflexivity|]. split; reflexivity.
+      unfold r', r1. split; [rewrite !r_set_other by assumption; reflexivity|]. split; [reflexivity|]. split; reflexivity.
   - intros x o Hl Hs. unfold sync in *. rewrite !set_balance_cur in *. change (cur_store sA) with c1 in *.
     destruct (Z.eq_dec x t) as [->|Hxt].
     + rewrite set_balance_lookup_same in Hl. inversion Hl; subst. simpl. symmetry. apply to_native_to_wei.
